@@ -317,6 +317,58 @@ fn check_search(c: &MnConfig, start: u64, window: u64, acc: &mut Acc) {
     }
 }
 
+/// Search windows of 1024 .. 2048 seeds over configurations whose successful seeds are sparse: the
+/// per-seed outcome of 6144 consecutive seeds is computed first, then for every successful seed s
+/// windows are chosen that put s at offsets 1023, 1024 and 2047 (a window's verdict is known from
+/// the table: Some in-window success iff one exists).
+fn check_search_sparse(base: u64, acc: &mut Acc) {
+    let cfgs = [
+        MnConfig { nrows: 10, ncols: 15, wr: 3, wc: 2, backtrack_cols: 0, backtrack_trials: 0, min_girth: Some(10), girth_trials: 0, fill_policy: FillPolicy::Random },
+        MnConfig { nrows: 8, ncols: 12, wr: 3, wc: 2, backtrack_cols: 0, backtrack_trials: 0, min_girth: Some(10), girth_trials: 0, fill_policy: FillPolicy::Random },
+    ];
+    for c in cfgs.iter() {
+        let span = 6144u64;
+        let ok: Vec<bool> = {
+            use rayon::prelude::*;
+            (base..base + span).into_par_iter().map(|s| guard(|| c.run(s)).map(|r| r.is_ok()).unwrap_or(false)).collect()
+        };
+        let successes: Vec<u64> = (0..span).filter(|&i| ok[i as usize]).collect();
+        acc.add("sparse_search_successful_seeds", successes.len() as u64);
+        let mut windows: Vec<(u64, u64)> = Vec::new();
+        for &p in successes.iter().take(40) {
+            for (back, t) in [(1023u64, 1024u64), (1023, 2048), (2047, 2048), (1024, 1025), (1023, 1023 + 2), (511, 512)] {
+                if p >= back && p - back + t <= span {
+                    windows.push((base + p - back, t));
+                }
+            }
+        }
+        windows.sort_unstable();
+        windows.dedup();
+        for (a, t) in windows {
+            acc.evals += 1;
+            acc.nontrivial += 1;
+            let key = format!("{}:search-sparse{}+{}", mn_key(c), a, t);
+            let replay = json!({"kind": "search-sparse"});
+            let in_window: Vec<u64> = (a..a + t).filter(|s| ok[(s - base) as usize]).collect();
+            match guard(|| pool_of(4).install(|| c.search(a, t))) {
+                Err(e) => acc.violate(key, format!("search({}, {}) panicked: {}", a, t, e), replay),
+                Ok(None) => {
+                    if !in_window.is_empty() {
+                        acc.violate(key, format!("search({}, {}) found nothing although seeds {:?} of that range succeed", a, t, in_window), replay);
+                    }
+                }
+                Ok(Some((s, h))) => {
+                    if !in_window.contains(&s) {
+                        acc.violate(key, format!("search({}, {}) returned seed {} which is not a successful seed of the range ({:?})", a, t, s, in_window), replay);
+                    } else if guard(|| c.run(s)).ok().and_then(|r| r.ok()).map(|h2| ones(&h2)) != Some(ones(&h)) {
+                        acc.violate(key, format!("search({}, {}) returned seed {} with a matrix that seed does not produce", a, t, s), replay);
+                    }
+                }
+            }
+        }
+    }
+}
+
 fn replay_element(v: &Value, run: &Run, acc: &mut Acc) {
     match v["kind"].as_str() {
         Some("mn") => {
@@ -327,6 +379,7 @@ fn replay_element(v: &Value, run: &Run, acc: &mut Acc) {
         }
         Some("search") => check_search(&mn_from_json(&v["config"]), v["start"].as_u64().unwrap(), v["window"].as_u64().unwrap(), acc),
         Some("sensitivity") => sensitivity(run, acc),
+        Some("search-sparse") => check_search_sparse(run.seed.wrapping_mul(64), acc),
         _ => machinery("C16: unknown replay element"),
     }
 }
@@ -402,6 +455,7 @@ pub fn run(run: &Run) -> i32 {
         });
         acc = acc.merge(a2);
         sensitivity(run, &mut acc);
+        check_search_sparse(base, &mut acc);
         // seed search on a sub-grid of configurations (those where success depends on the seed are the interesting ones)
         let step = if run.thorough() { 5 } else { 13 };
         let search_cfgs: Vec<MnConfig> = cfgs.iter().step_by(step).cloned().collect();
@@ -432,7 +486,7 @@ pub fn run(run: &Run) -> i32 {
         run,
         acc,
         Coverage {
-            rule: "MacKay-Neal and PEG also on dimensions just past 16, 32, 64, 128, 256 with column weights 3..17; MacKay-Neal: rows 2..6(8) x cols 2..10(14) x wc 1..3 x wr in {ceil(cols*wc/rows), +1, cols} x {Random, Uniform} x min girth {None, 4/6/8 with 0/5/50 trials, 3/5/7 with 5 trials} x backtracking {(0,0),(1,3),(2,10)}, each with a window of 32 (128) consecutive seeds starting at VERIF_SEED*64, every run executed twice (determinism); PEG: rows 1..6(8) x cols 1..10(14) x wc 1..4 (including wc > rows) x the same seeds with the edge rule replayed edge by edge against the harness's own BFS on the partial graph; seed search: on every 13th (5th) configuration the per-seed outcome set of a 24-seed window is computed exhaustively, then search() is run under rayon pools of 1, 2, 4 and 16 threads (3 repetitions) on the whole window and on windows ending just before / just at the first successful seed; where at least half of the window succeeds also with try counts of 2^32, 2^32+1 and 2^33+5 (a count beyond 32 bits). Non-trivial = successful construction (all invariants checked) / search with more than one admissible answer.".into(),
+            rule: "MacKay-Neal and PEG also on dimensions just past 16, 32, 64, 128, 256 with column weights 3..17; MacKay-Neal: rows 2..6(8) x cols 2..10(14) x wc 1..3 x wr in {ceil(cols*wc/rows), +1, cols} x {Random, Uniform} x min girth {None, 4/6/8 with 0/5/50 trials, 3/5/7 with 5 trials} x backtracking {(0,0),(1,3),(2,10)}, each with a window of 32 (128) consecutive seeds starting at VERIF_SEED*64, every run executed twice (determinism); PEG: rows 1..6(8) x cols 1..10(14) x wc 1..4 (including wc > rows) x the same seeds with the edge rule replayed edge by edge against the harness's own BFS on the partial graph; seed search: on every 13th (5th) configuration the per-seed outcome set of a 24-seed window is computed exhaustively, then search() is run under rayon pools of 1, 2, 4 and 16 threads (3 repetitions) on the whole window and on windows ending just before / just at the first successful seed; where at least half of the window succeeds also with try counts of 2^32, 2^32+1 and 2^33+5 (a count beyond 32 bits); two configurations with sparse successes: per-seed outcomes of 6144 seeds, then windows of 512..2048 seeds that put each successful seed at offsets 511, 1023, 1024, 2047. Non-trivial = successful construction (all invariants checked) / search with more than one admissible answer.".into(),
             exhaustive: true,
             extra,
             graph: None,
